@@ -146,6 +146,19 @@ CLAIMS["C03"] = dict(
     technique="TLC-enumerated relabelling subsets executed on the implementation; TLA+ preservation relation evaluated by TLC on the recorded files",
     design="DESIGN.md §3.2, §4 C03")
 
+CLAIMS["C05"] = dict(
+    category="model_checking",
+    text=("For every registered block type x version x population mode the typed generator yields a populated instance. The hooks report "
+          "which NiRef / NiStringRef objects pass through Sync while the block is read and while a clone is written; TLC evaluates "
+          "NifWire!EnumViol on each record: synced references are a subset of GetChildRefs u GetPtrs, synced string references a subset "
+          "of GetStringRefs (versions with a string table), GetChildIndices lists the values of GetChildRefs, and - the dynamic "
+          "consequence - after DeleteBlock, SetBlockOrder and a string-table rebuild the values written at the recorded fields equal "
+          "what NifGraph's ShiftRef / MapRef predict, i.e. no stale index."),
+    note=("A reference is defined operationally: a 4-byte field synced at the address of a live NiRef (H2+H4) or a pass through "
+          "NiStringRef::Read/Write (H3). Bounded by what the generator populates (counts <= 3)."),
+    technique="hook-recorded serialisation sets vs enumerator sets and graph-model predictions, judged by TLC (trace validation) for all types x versions x modes",
+    design="DESIGN.md §3.2, §4 C05")
+
 NOT_YET = {}
 
 
